@@ -58,3 +58,52 @@ def schedTwoKeys : List (Tid × Choice) :=
   moves 1 { call := .commit } 20
 
 end NodisVerif.Proofs.TxProg
+
+namespace NodisVerif.Proofs.TxProg
+open NodisVerif.Proto (Key Rec Mode Ev Hold TxSt PState assoc erase put Tx)
+open NodisVerif.TxProg
+open NodisVerif.Proofs.Proto
+
+/-- the transitions that can be disabled at all: a mutex acquisition (`s.mu.RLock` a1 a10, `s.mu.Lock` a4 n2 d1 c8,
+    the record lock a8), the choice of the next call (init, idle), an allocation (a5, d3: the scheduler must offer
+    a fresh id) and d2 (never disabled in a reachable state: `delKey_not_stuck`) -/
+def mayBlock : Pc → Bool
+  | .init | .idle | .a1 | .a10 | .a4 | .n2 | .d1 | .c8 | .a8 | .a5 | .d3 | .d2 => true
+  | _ => false
+
+/-- every other transition is always enabled: in particular nothing inside an `s.mu` section (except the two
+    allocations) and nothing in `commit` except `s.mu.Lock()` can block -/
+theorem enabled_unless_mayBlock (c : Cfg) (t : Tid) (ch : Choice) (h : mayBlock (c.loc t).pc = false) :
+    (TxProg.step c t ch).isSome = true := by
+  have key : (tstep c.sh t (c.loc t) ch).isSome = true := by
+    cases hpc : (c.loc t).pc <;> simp only [hpc, mayBlock] at h <;> simp only [tstep, hpc] <;>
+      (repeat' split) <;> simp_all
+  unfold TxProg.step
+  cases hx : tstep c.sh t (c.loc t) ch with
+  | none => rw [hx] at key; cases key
+  | some r => rfl
+
+def commitPc : Pc → Bool
+  | .c2 | .c3 | .c4 | .c5 | .c6 | .c7 | .c8 | .c9 | .c10 | .c11 | .c12 | .cend => true
+  | _ => false
+
+theorem commitPc_commitNext (s : Shared) (l : Loc) : commitPc (commitNext s l).pc = true := by
+  unfold commitNext; split; rfl; split; rfl; split <;> rfl
+
+/-- the shrinking phase is closed: once `commit` has reported its `commit` event the thread stays inside
+    `commit` until its `end` event returns it to `init` with an empty `lockedMetas` -/
+theorem commit_phase_closed {s s' : Shared} {t : Tid} {l l' : Loc} {ch : Choice} {e : Option Ev}
+    (h : tstep s t l ch = some (s', l', e)) (hc : commitPc l.pc = true) :
+    commitPc l'.pc = true ∨ (l' = {} ∧ e = some (.fin t)) := by
+  cases hpc : l.pc <;> simp [hpc, commitPc] at hc <;> simp only [tstep, hpc] at h <;>
+    (repeat' split at h) <;> simp at h <;> obtain ⟨_, rfl, rfl⟩ := h <;>
+    first | exact Or.inl (commitPc_commitNext _ _) | exact Or.inl rfl | exact Or.inr ⟨rfl, rfl⟩
+
+/-- in the shrinking phase no event of the growing phase is emitted -/
+theorem commit_phase_events {s s' : Shared} {t : Tid} {l l' : Loc} {ch : Choice} {ev : Ev}
+    (h : tstep s t l ch = some (s', l', some ev)) (hc : commitPc l.pc = true) :
+    (∃ r, ev = .unlock t r) ∨ (∃ k r, ev = .trylock t k r) ∨ (∃ k r, ev = .drop t k r) ∨ ev = .fin t := by
+  cases hpc : l.pc <;> simp [hpc, commitPc] at hc <;> simp only [tstep, hpc] at h <;>
+    (repeat' split at h) <;> simp at h <;> obtain ⟨_, _, rfl⟩ := h <;> simp
+
+end NodisVerif.Proofs.TxProg
